@@ -124,6 +124,7 @@ fn real_main() -> Result<i32, String> {
 }
 
 fn main() {
+    simrun::remove_stale_scratch();
     let r = real_main();
     simrun::unstage_binaries();
     match r {
